@@ -76,4 +76,26 @@ def emitField (id : String) (case : Case) : String × Option String :=
   let (ident, renamed) := toIdentifierCase id case
   (ident, if renamed then some id else none)
 
+/-- the identifier as rustc sees it: a raw identifier is the same identifier as the word after `r#` -/
+def unraw (ident : String) : String :=
+  match ident.toList with
+  | 'r' :: '#' :: rest => String.ofList rest
+  | _ => ident
+
+/-- `while !scope.insert(unraw name) { name.push('_') }` (`pp_label`): an identifier already given to an earlier field
+of the same record / variant gets trailing underscores until it is new; the loop ends within `taken.length + 1` rounds -/
+def freshen : Nat → List String → String → String
+  | 0, _, n => n
+  | k + 1, taken, n => if unraw n ∈ taken then freshen k taken (n ++ "_") else n
+
+/-- the named fields of one record / the tags of one variant, in the order they are printed: identifier and rename.
+A field whose identifier had to be changed carries a rename with its label. -/
+def emitFields (case : Case) : List String → List String → List (String × Option String)
+  | [], _ => []
+  | id :: rest, taken =>
+    let ident := (emitField id case).1
+    let ident' := freshen (taken.length + 1) taken ident
+    let rename' := if ident' = ident then (emitField id case).2 else some id
+    (ident', rename') :: emitFields case rest (unraw ident' :: taken)
+
 end Candid.RustId
